@@ -1,6 +1,7 @@
 import GV.Basic.Bits
 import GV.Model.Utf8
 import GV.Spec.Utf8
+import GV.Proofs.StrLit
 
 namespace GV.Props.C14
 open GV.Utf8 GV.Bits
@@ -332,5 +333,35 @@ theorem decode_encode (r : Int) (hs : isScalar r = true) (rest : Str) :
 /-- non-scalars (negative, surrogates, beyond U+10FFFF) encode as U+FFFD = EF BF BD. -/
 theorem encode_nonscalar (r : Int) (hs : isScalar r = false) : encodeRune r = [0xEF, 0xBF, 0xBD] := by
   rw [encode_spec]; unfold GV.Spec.Utf8.encode; simp only [hs, Bool.false_eq_true, if_false]; decide
+
+/-! ### string literals survive compilation -/
+
+open GV.StrLit in
+/-- **literal_roundtrip** — for every Go string (any bytes: quotes, backslashes, NUL, control, ≥ 0x7F) the
+    literal emitted by `encodeString` is a well-formed ECMAScript double-quoted literal whose string value
+    is exactly the original byte sequence. -/
+theorem literal_roundtrip (s : List Nat) (hs : ∀ b ∈ s, b < 256) :
+    jsStringValue (encodeString s) = some s := by
+  unfold jsStringValue encodeString
+  simp only [List.cons_append, List.nil_append]
+  rw [body s hs [34] []]
+  simp [unescapeBody]
+
+open GV.StrLit in
+/-- **literal_ascii** — the emitted literal consists of printable ASCII only (no raw newline, control or
+    non-ASCII code unit can reach the output file, so byte/UTF-16 column counting agrees on it). -/
+theorem literal_ascii (s : List Nat) (hs : ∀ b ∈ s, b < 256) :
+    ∀ c ∈ encodeString s, 0x20 ≤ c ∧ c ≤ 0x7E := by
+  intro c hc
+  unfold encodeString encBody at hc
+  simp only [List.cons_append, List.nil_append, List.mem_cons, List.mem_append, List.mem_flatten, List.mem_map,
+    List.not_mem_nil, or_false] at hc
+  rcases hc with h | ⟨l, ⟨b, hb, rfl⟩, hcl⟩ | h
+  · omega
+  · exact encByte_ascii b (hs b hb) c hcl
+  · omega
+
+example : GV.StrLit.jsStringValue (GV.StrLit.encodeString [34, 92, 0, 10, 255, 65]) = some [34, 92, 0, 10, 255, 65] := by
+  decide
 
 end GV.Props.C14
